@@ -380,6 +380,14 @@ impl TypeContext {
                     continue;
                 }
 
+                // The bounds on the definition of the `Self` type are implied inside the
+                // method body just like those of any other parameter type, so they need
+                // to be restated as well for the borrow edges to account for them.
+                if let Some(param_self) = &method.param_self {
+                    let self_ty: hir::Type = param_self.ty.clone().into();
+                    self.validate_ty_in_method(errors, Param::Input("self"), &self_ty, method);
+                }
+
                 for param in &method.params {
                     self.validate_ty_in_method(
                         errors,
